@@ -90,10 +90,29 @@ def r27_3(ctx):
             ctx.finding(rr, site(f), f"{cname}.transfer_bytes returns {rets}, not TransferBytes(0.0, 0.0)", func=f)
     rc = repo.mod("dask_array._rechunk").cls("Rechunk").methods.get("transfer_bytes")
     need(rc is not None, "Rechunk.transfer_bytes")
-    init = {unparse(s.targets[0]): unparse(s.value) for s in body_walk(rc.node) if isinstance(s, ast.Assign) and unparse(s.targets[0]) in ("lo", "hi")}
-    rr.inst(site(rc), accumulators=init)
-    if init != {"lo": "0.0", "hi": "0.0"}:
-        ctx.finding(rr, site(rc), f"Rechunk.transfer_bytes accumulators start at {init}, not 0.0: an empty plan (same chunks) would not cost zero", func=rc)
+    # the two accumulators are whatever the final TransferBytes(a, b) returns; each starts at zero and is only ever
+    # incremented (+=) - names and the spelling of the initialisation (``lo = hi = 0.0``) are free
+    acc = []
+    for r in body_walk(rc.node):
+        if isinstance(r, ast.Return) and isinstance(r.value, ast.Call) and dotted(r.value.func) == "TransferBytes" and all(isinstance(a, ast.Name) for a in r.value.args):
+            acc = [a.id for a in r.value.args]
+    need(len(acc) == 2, "Rechunk.transfer_bytes no longer returns TransferBytes(<lo>, <hi>) over two accumulators")
+    init, other = {}, {}
+    for s_ in body_walk(rc.node):
+        if isinstance(s_, ast.Assign):
+            for t in s_.targets:
+                for nm in [x.id for x in ast.walk(t) if isinstance(x, ast.Name) and x.id in acc]:
+                    if isinstance(s_.value, ast.Constant) and s_.value.value == 0:
+                        init[nm] = unparse(s_.value)
+                    else:
+                        other.setdefault(nm, []).append(unparse(s_)[:60])
+        elif isinstance(s_, ast.AugAssign) and isinstance(s_.target, ast.Name) and s_.target.id in acc and not isinstance(s_.op, ast.Add):
+            other.setdefault(s_.target.id, []).append(unparse(s_)[:60])
+    rr.inst(site(rc), accumulators=acc, zero_initialised=sorted(init), other_bindings=other)
+    if set(init) != set(acc):
+        ctx.finding(rr, site(rc), f"Rechunk.transfer_bytes accumulators {sorted(set(acc) - set(init))} do not start at 0.0: an empty plan (same chunks) would not cost zero", func=rc)
+    if other:
+        ctx.finding(rr, site(rc), f"Rechunk.transfer_bytes rebinds an accumulator other than by += of a stage cost ({other}): the estimate is no longer the sum of its stages (min and max can cross)", func=rc)
     loops = [n for n in body_walk(rc.node) if isinstance(n, ast.For)]
     if not loops or "plan_rechunk" not in unparse(rc.node):
         ctx.finding(rr, site(rc), "Rechunk.transfer_bytes no longer sums over the stages of plan_rechunk", func=rc)
